@@ -52,7 +52,7 @@ type Stats struct {
 
 type World struct {
 	skew             map[string]time.Duration // per client: offset of its wall clock (hook H7)
-	StaleCacheServed int32 // node-cache hits that returned a node whose shape changed after it was cached (see nodecache.go)
+	StaleCacheServed int32                    // node-cache hits that returned a node whose shape changed after it was cached (see nodecache.go)
 	S                *Store
 	Clients          []*Client
 	byName           map[string]*Client
@@ -164,6 +164,13 @@ func NewWorld() *World {
 }
 
 func (w *World) Probe(name string) { w.Stats.Probes[name]++ }
+
+// WallClock is what the named client's process reads as the time of day.
+func (w *World) WallClock(client string) time.Time {
+	w.mu.Lock()
+	defer w.mu.Unlock()
+	return time.Now().Add(w.skew[client])
+}
 
 // SetSkew gives one client's process a wall clock that runs d ahead of (or
 // behind) the simulated time: version creation times and default write times
